@@ -20,6 +20,9 @@ RULE = ('index-expression grammar on annotated arrays filled with their own flat
         'expressions from the full grammar on shapes up to (3,3,6), s0 in {0,-5,7,-64}, three rates; (e) chains of 2-3 '
         'expressions; (f) concat along time/channel/epoch of adjacent splits, of splits with a gap/overlap/other rate/other '
         'labels/other metadata/other ndim, and of pieces obtained by real slicing; (g) arithmetic, copy, astype. '
+        'Integer lists also as 1-D integer ndarrays inside tuples. In 7 of 9 cases the channel labels and metadata are heterogeneous '
+        'Python objects (mixed ints/strings, tuples, strings, float/None/tuple mixes; metadata dicts holding them), compared with the '
+        'original objects by identity or typed ==. '
         'Non-trivial: the implementation returned an annotated array whose data, labels or metadata differ from the input, '
         'or an exception. Distinct = distinct cases.')
 TRUSTED = ['harness/C11.py (grammar generator; conversion of PipelineData observables to integer identifiers; the semantic '
@@ -28,7 +31,8 @@ TRUSTED = ['harness/C11.py (grammar generator; conversion of PipelineData observ
            'coq/PData/Model.v np_getitem / cat2 (exercised by the correspondence, not proved)',
            'Python list indexing/slicing as modelled in coq/Common/PySlice.v']
 ASSUMPTIONS = ['slice steps are None or >= 1 (the property quantifies over step >= 1)',
-               'channel labels and metadata entries are compared as identifiers (ints / {"id": k} dicts); None is one more identifier',
+               'channel labels and metadata entries are identifiers in the model; the harness maps every distinct label / metadata object '
+               '(ints, strings, None, tuples, floats, dicts with nested values) to its identifier by identity or type-exact equality',
                'rates are chosen so that fs/step is exact in binary64 (36000, 45, 1757812.5); the model keeps fs as a fraction',
                'the value of s0 after a strided slice is compared model-vs-code but not judged (pinned by the existing tests)',
                'an int, list or mask on the TIME axis and a newaxis that is not leading are outside the claim: compared model-vs-code only']
@@ -50,19 +54,77 @@ def _labels(shape, cn=False):
     return [70 + i for i in range(shape[1])], [{'id': 90 + i} for i in range(shape[0])]
 
 
+# Labels / metadata are identifiers (70+i, 90+i, None = -1) in the cases, in the oracle and in the Coq model.  The arrays
+# handed to psiaudio carry heterogeneous Python objects instead (palette `lab` of the case); results are mapped back
+# by comparing with the ORIGINAL objects (identity, or == with equal types all the way down), never through str().
+PALETTES = [
+    None,                                                                       # 0: the identifiers themselves (ints)
+    [1, 'ref', 2, 'x', 3, 'y', 4, 'z'],                                         # 1: ints and strings mixed
+    [('A', 0), ('A', 1), ('B', 0), ('B', 1), ('C', 0), ('C', 1), ('D', 0), ('D', 1)],   # 2: tuples
+    ['ch0', 'ch1', 'ch2', 'ch3', 'ch4', 'ch5', 'ch6', 'ch7'],                   # 3: strings
+    [2.5, None, 'a', ('t', 2), 7, ('u',), 'b', -3],                             # 4: float, None, str, tuples, ints
+]
+BAD = -999
+
+
+def _same(a, b):
+    if a is b:
+        return True
+    if type(a) is not type(b):
+        return False
+    if isinstance(a, (tuple, list)):
+        return len(a) == len(b) and all(_same(u, v) for u, v in zip(a, b))
+    if isinstance(a, dict):
+        return list(a.keys()) == list(b.keys()) and all(_same(a[k], b[k]) for k in a)
+    return a == b
+
+
+def _lab_obj(lab, ident):
+    if ident == -1:
+        return None
+    return ident if not lab else PALETTES[lab][(ident - 70) % 8]
+
+
+def _lab_id(lab, obj):
+    if not lab:
+        if obj is None:
+            return -1
+        return obj if type(obj) is int else BAD
+    for j, q in enumerate(PALETTES[lab]):
+        if _same(obj, q):
+            return 70 + j
+    return BAD
+
+
+def _md_obj(lab, ident):
+    if not lab:
+        return {'id': ident}
+    return {'id': ident, 'tag': PALETTES[lab][(ident - 90) % 8], 'n': [ident, str(ident), (ident,)]}
+
+
+def _md_id(lab, obj):
+    if isinstance(obj, dict) and type(obj.get('id')) is int and _same(obj, _md_obj(lab, obj['id'])):
+        return obj['id']
+    return BAD
+
+
 def _mk(case):
     from psiaudio.pipeline import PipelineData
     shape = tuple(case['shape'])
+    lab = case.get('lab', 0)
     d = np.arange(int(np.prod(shape)), dtype=float).reshape(shape)
     ch, md = _labels(shape, case.get('cn', False))
+    ch = [_lab_obj(lab, c) for c in ch] if isinstance(ch, list) else (None if ch is None else _lab_obj(lab, ch))
+    md = [_md_obj(lab, m['id']) for m in md] if isinstance(md, list) else _md_obj(lab, md['id'])
     return PipelineData(d, fs=case['fs'][0] / case['fs'][1], s0=case['s0'], channel=ch, metadata=md)
 
 
-def _mk_lit(p):
+def _mk_lit(p, lab=0):
     from psiaudio.pipeline import PipelineData
     d = np.array(p['vals'], dtype=float).reshape(p['shape'])
     ch = p['ch']
-    md = {'id': p['md'][1]} if p['md'][0] == 'D' else [{'id': k} for k in p['md'][1]]
+    ch = [_lab_obj(lab, c) for c in ch] if isinstance(ch, list) else _lab_obj(lab, ch)
+    md = _md_obj(lab, p['md'][1]) if p['md'][0] == 'D' else [_md_obj(lab, k) for k in p['md'][1]]
     return PipelineData(d, fs=p['fs'][0] / p['fs'][1], s0=p['s0'], channel=ch, metadata=md)
 
 
@@ -74,6 +136,8 @@ def _pyitem(it):
         return slice(it[1], it[2], it[3])
     if k == 'l':
         return list(it[1])
+    if k == 'a':                      # 1-D integer ndarray (only generated inside a tuple; NumPy and the model read it as the list)
+        return np.array(it[1], dtype=int)
     if k == 'm':
         return np.array(it[1], dtype=bool) if it[2] else [bool(b) for b in it[1]]
     if k == 'e':
@@ -88,21 +152,32 @@ def _pyindex(idx):
     return items[0] if idx['sole'] else tuple(items)
 
 
-def _obs(r):
-    """observables of a result, canonicalised"""
+def _obs(r, lab=0):
+    """observables of a result, canonicalised (labels / metadata mapped back to their identifiers)"""
     from psiaudio.pipeline import PipelineData
     if not isinstance(r, PipelineData):
         return {'scalar': int(r)}
+    bad = []
     ch = r.channel
     if isinstance(ch, list):
-        ch = [(-1 if c is None else int(c)) for c in ch]
+        ids = [_lab_id(lab, c) for c in ch]
+        bad += [f'channel label {c!r} is not one of the original label objects' for c, i in zip(ch, ids) if i == BAD]
+        ch = ids
     else:
-        ch = -1 if ch is None else int(ch)
+        i = _lab_id(lab, ch)
+        if i == BAD:
+            bad.append(f'channel label {ch!r} is not one of the original label objects')
+        ch = i
     md = r.metadata
     if isinstance(md, dict):
-        md = ['D', int(md['id'])]
+        i = _md_id(lab, md)
+        if i == BAD:
+            bad.append(f'metadata {md!r} is not the original metadata object')
+        md = ['D', i]
     elif isinstance(md, list):
-        md = ['L', [int(m['id']) for m in md]]
+        ids = [_md_id(lab, m) for m in md]
+        bad += [f'metadata entry {m!r} is not one of the original entries' for m, i in zip(md, ids) if i == BAD]
+        md = ['L', ids]
     else:
         raise TypeError(f'metadata of unexpected form {md!r}')
     fs = Fraction(float(r.fs))
@@ -114,7 +189,7 @@ def _obs(r):
     t_ok = bool(np.array_equal(t, np.arange(s0, s0 + n) / float(r.fs))) and len(t) == n
     return {'shape': [int(v) for v in r.shape], 'vals': [int(v) for v in np.asarray(r).ravel()],
             's0': s0, 'fs': [fs.numerator, fs.denominator], 'ch': ch, 'md': md, 't_ok': t_ok,
-            'n_channels': r.n_channels, 'n_epochs': r.n_epochs, 'n_time': r.n_time}
+            'n_channels': r.n_channels, 'n_epochs': r.n_epochs, 'n_time': r.n_time, **({'bad': bad[:3]} if bad else {})}
 
 
 def _catch(f):
@@ -127,24 +202,25 @@ def _catch(f):
 def impl(case):
     from psiaudio.pipeline import concat
     k = case['k']
+    lab = case.get('lab', 0)
     if k == 'get':
         x = _mk(case)
-        steps = [_obs(x)]
+        steps = [_obs(x, lab)]
         for idx in case['ixs']:
             r = _catch(lambda: x[_pyindex(idx)])
             if isinstance(r, dict):
                 steps.append(r)
                 break
-            o = _obs(r)
+            o = _obs(r, lab)
             steps.append(o)
             if 'scalar' in o:
                 break
             x = r
         return {'steps': steps}
     if k == 'cat':
-        ps = [_mk_lit(p) for p in case['pieces']]
+        ps = [_mk_lit(p, lab) for p in case['pieces']]
         r = _catch(lambda: concat(ps, axis=case['axis']))
-        return {'out': r if isinstance(r, dict) else _obs(r)}
+        return {'out': r if isinstance(r, dict) else _obs(r, lab)}
     if k == 'slicecat':
         x = _mk(case)
         ps = []
@@ -153,10 +229,10 @@ def impl(case):
             for idx in ixs:
                 y = _catch(lambda: y[_pyindex(idx)])
                 if isinstance(y, dict):
-                    return {'out': y, 'pieces': [_obs(p) for p in ps], 'x': _obs(x), 'slicing_failed': _show(idx)}
+                    return {'out': y, 'pieces': [_obs(p, lab) for p in ps], 'x': _obs(x, lab), 'slicing_failed': _show(idx)}
             ps.append(y)
         r = _catch(lambda: concat(ps, axis=case['axis']))
-        return {'out': r if isinstance(r, dict) else _obs(r), 'pieces': [_obs(p) for p in ps], 'x': _obs(x)}
+        return {'out': r if isinstance(r, dict) else _obs(r, lab), 'pieces': [_obs(p, lab) for p in ps], 'x': _obs(x, lab)}
     if k == 'op':
         import copy as _copy
         x = _mk(case)
@@ -168,7 +244,7 @@ def impl(case):
              'selfadd': lambda: x + x, 'ndadd': lambda: np.full(x.shape, float(o[1])) + x,
              'iadd': lambda: _iadd(x, o[1])}[o[0]]
         r = f()
-        return {'out': _obs(r)}
+        return {'out': _obs(r, lab)}
     raise KeyError(k)
 
 
@@ -193,7 +269,7 @@ def _item(it):
         return f'IInt {zlit(it[1])}'
     if k == 's':
         return f'ISlice {optlit(it[1], zlit)} {optlit(it[2], zlit)} {optlit(it[3], zlit)}'
-    if k == 'l':
+    if k in 'la':
         return f'IList {zlist(it[1])}'
     if k == 'm':
         return f'IMask {blist(it[1])} {"true" if it[2] else "false"}'
@@ -259,7 +335,7 @@ def _sel_of(it, n):
         return None if (z < -n or z >= n) else ('int', z % n)
     if k == 's':
         return ('keep', list(range(n))[slice(it[1], it[2], it[3])])
-    if k == 'l':
+    if k in 'la':
         if any(z < -n or z >= n for z in it[1]):
             return None
         return ('keep', [z % n for z in it[1]])
@@ -330,7 +406,7 @@ def _expected(inp, idx):
     names = ['E', 'C', 'T'][3 - nd:]
     ax = dict(zip(names, sels))
     exp = {'vals': [int(v) for v in vals.ravel()], 'shape': oshape, 'per': per,
-           'nadv': sum(1 for it in per if it[0] in 'lm'), 'step': per[-1][3] or 1, 'tsel': ax['T'][1]}
+           'nadv': sum(1 for it in per if it[0] in 'lma'), 'step': per[-1][3] or 1, 'tsel': ax['T'][1]}
     if 'C' in ax:
         kind, s = ax['C']
         exp['ch'] = inp['ch'][s] if kind == 'int' else [inp['ch'][i] for i in s]
@@ -384,6 +460,7 @@ def _judge_step(inp, idx, got):
             core.append(f'time axis starts at sample {got["s0"]} (samples {got_t[:3]}..) instead of {want_t[:3]}.. = slice of the time axis')
     if not got.get('t_ok', True):
         core.append('.t is not (s0 + arange(n_time)) / fs')
+    core += got.get('bad', [])
     wfm = [m for m in _wf(got) if not m.startswith('.t is not')]
     if core or (sel and key != K_PAIRED):
         key = None
@@ -402,6 +479,8 @@ def _show(idx):
             return ':'.join('' if v is None else str(v) for v in it[1:4])
         if k == 'l':
             return str(it[1])
+        if k == 'a':
+            return f'array({it[1]})'
         if k == 'm':
             return ('array(' if it[2] else '') + str([bool(b) for b in it[1]]) + (')' if it[2] else '')
         return '...' if k == 'e' else 'None'
@@ -443,8 +522,10 @@ def _judge(case, res):
                     f'{ {a: b for a, b in res["out"].items() if a != "vals"} }', None)
         return None
     if k == 'op':
-        x = _obs(_mk(case))
+        x = _obs(_mk(case), case.get('lab', 0))
         o = res['out']
+        if o.get('bad'):
+            return (f'{case["op"]}: ' + '; '.join(o['bad']), None)
         if not _same_ann(o, x):
             return (f'{case["op"]} changed the annotations: {[(f, x[f], o[f]) for f in ("shape", "s0", "fs", "ch", "md") if x[f] != o[f]]}', None)
         return None
@@ -506,7 +587,7 @@ def _judge_cat(pieces, axis, out, expect):
         msgs.append(f'channel labels {out["ch"]} instead of {wch}')
     if out['md'] != wmd:
         msgs.append(f'metadata {out["md"]} instead of {wmd}')
-    msgs += _wf(out)
+    msgs += _wf(out) + out.get('bad', [])
     if msgs:
         return (f'concat along {dim[1:].lower()}: ' + '; '.join(msgs), None)
     return None
@@ -567,7 +648,7 @@ def _axis_items_full(n):
 def _axis_items_reduced(n, rng=None):
     r = [['i', 0], ['i', -1], ['i', n], ['s', None, None, None], ['s', 1, None, None], ['s', -n - 2, None, None],
          ['s', None, -1, 2], ['s', n + 2, None, None],
-         ['l', [0]], ['l', [n - 1, 0]], ['m', [1] + [0] * (n - 1), False], ['m', [0] * (n - 1) + [1], True],
+         ['l', [0]], ['l', [n - 1, 0]], ['a', [0, n - 1]], ['m', [1] + [0] * (n - 1), False], ['m', [0] * (n - 1) + [1], True],
          ['m', [1] * n, True], ['m', [0] * n, False]]
     return [it for it in r if not (it[0] == 'm' and len(it[1]) == 0 and not it[2])]
 
@@ -580,7 +661,8 @@ def _rand_item(n, rng, time=False):
     if u < (0.8 if time else 0.5):
         return ['i', rng.randint(-n - 1, n)]
     if u < (0.9 if time else 0.7):
-        return ['l', [rng.randint(-n, n - 1) if n else 0 for _ in range(rng.randint(0, 3))]]
+        zs = [rng.randint(-n, n - 1) if n else 0 for _ in range(rng.randint(0, 3))]
+        return ['a' if (zs and rng.random() < 0.35) else 'l', zs]
     L = n if rng.random() < 0.9 else n + rng.choice([-1, 1])
     L = max(L, 0)
     if L == 0 and n != 0:
@@ -596,7 +678,10 @@ def _rand_index(shape, rng):
     nd = len(shape)
     u = rng.random()
     if u < 0.15:
-        return {'sole': True, 'items': [_rand_item(shape[0], rng, time=(nd == 1))]}
+        it = _rand_item(shape[0], rng, time=(nd == 1))
+        if it[0] == 'a':        # a bare integer ndarray takes the `index.all()` shortcut: outside the index language
+            it = ['l', it[1]]
+        return {'sole': True, 'items': [it]}
     items = []
     naxis = rng.choice([nd, nd, nd, nd - 1, nd - 1, max(nd - 2, 0), nd + 1])
     ell = rng.random() < 0.35 and naxis <= nd
@@ -800,7 +885,7 @@ def _op_cases(tier, rng):
     yield {'k': 'op', 'shape': [4], 's0': 2, 'fs': FSS[0], 'op': ['copy'], 'cn': True}
 
 
-def cases(tier, rng):
+def _cases(tier, rng):
     quick = tier == 'quick'
     full = ['s', None, None, None]
     # (a) every time slice
@@ -850,7 +935,8 @@ def cases(tier, rng):
     # (c2) legal expressions: every pair (epoch item, channel item) x time slice, with the equivalent Ellipsis / newaxis spellings
     def legal(n):
         return [['i', 0], ['i', -1], full, ['s', 1, None, None], ['s', None, -1, None], ['s', None, None, 2], ['s', -n - 2, None, None],
-                ['s', n + 2, None, None], ['l', [0]], ['l', [n - 1, 0]], ['l', [-1, -1, 0]], ['m', [1] + [0] * (n - 1), False],
+                ['s', n + 2, None, None], ['l', [0]], ['l', [n - 1, 0]], ['l', [-1, -1, 0]], ['a', [n - 1, 0]], ['a', [0, -1, 0]],
+                ['m', [1] + [0] * (n - 1), False],
                 ['m', [0] * (n - 1) + [1], True], ['m', [1] * n, True], ['m', [0] * n, False]]
     tsl = [full, ['s', 1, None, None], ['s', -2, None, None], ['s', None, None, 2], ['s', 1, -1, 3], ['s', -9, 9, 1], ['s', 2, 2, None]]
     reg = []
@@ -874,7 +960,7 @@ def cases(tier, rng):
                 reg.append((shape, [ic, ['e']]))
                 reg.append((shape, [['n'], ic, ['e'], tsl[2]]))
     if quick:
-        reg = rng.sample(reg, 1300)
+        reg = rng.sample(reg, 1500)
     for shape, items in reg:
         yield _get(shape, [{'sole': False, 'items': items}], s0=rng.choice([0, -5, 7]), fs=rng.choice(FSS))
     for n in (4, 5):
@@ -914,9 +1000,20 @@ def cases(tier, rng):
     yield from _op_cases(tier, rng)
 
 
+def cases(tier, rng):
+    """seven of every nine cases carry heterogeneous label / metadata objects (PALETTES 1-4) instead of plain ints"""
+    k = 0
+    for c in _cases(tier, rng):
+        if 'lab' not in c and not c.get('cn'):
+            k += 1
+            c['lab'] = [0, 1, 2, 4, 3, 1, 4, 2, 0][k % 9]
+        yield c
+
+
 def distribution(cases_, results):
-    d = {'kinds': {}, 'ndim': {}, 'outcomes': {}, 'items': {}}
+    d = {'kinds': {}, 'ndim': {}, 'outcomes': {}, 'items': {}, 'label_palette': {}}
     for c, r in zip(cases_, results):
+        d['label_palette'][c.get('lab', 0)] = d['label_palette'].get(c.get('lab', 0), 0) + 1
         d['kinds'][c['k']] = d['kinds'].get(c['k'], 0) + 1
         if c['k'] == 'get':
             d['ndim'][len(c['shape'])] = d['ndim'].get(len(c['shape']), 0) + 1
